@@ -286,8 +286,11 @@ fcppt::container::raw_vector::object<T, A>::get_allocator() const
 
 template <typename T, typename A>
 typename fcppt::container::raw_vector::object<T, A>::iterator
-fcppt::container::raw_vector::object<T, A>::insert(iterator const _position, T const &_value)
+fcppt::container::raw_vector::object<T, A>::insert(iterator const _position, T const &_ref)
 {
+  // _ref might refer to an element of this container
+  T const _value(_ref);
+
   size_type const new_size(this->size() + 1U);
 
   if (new_size > this->capacity())
@@ -338,8 +341,11 @@ fcppt::container::raw_vector::object<T, A>::insert(iterator const _position, T c
 
 template <typename T, typename A>
 void fcppt::container::raw_vector::object<T, A>::insert(
-    iterator const _position, size_type const _size, T const &_value)
+    iterator const _position, size_type const _size, T const &_ref)
 {
+  // _ref might refer to an element of this container
+  T const _value(_ref);
+
   size_type const new_size(this->size() + _size);
 
   if (new_size > this->capacity())
